@@ -1,6 +1,7 @@
 package storeops
 
 import (
+	"context"
 	"fmt"
 	"strconv"
 	"strings"
@@ -59,16 +60,37 @@ func RunScheduledWrap(w *world.World, clients []func(p *world.Proc) string, even
 // Additional event:  r<i>  start client i if necessary and run it to completion, call by call.
 func RunScheduledLazy(w *world.World, clients []func(p *world.Proc) string, lazy []bool, events []string,
 	wrap func(sc *sched.Sched, id int, r world.Repos) world.Repos) SchedResult {
+	return runScheduled(w, clients, lazy, events, wrap, false)
+}
+
+// RunScheduledShared: like RunScheduled, but the clients are concurrent operations of ONE component: they share
+// its redis client (connection pool), lock manager and repositories, as the goroutines of the reporter, the API
+// or a prober's worker pool do.  The scheduler tells them apart by the context they call with.
+func RunScheduledShared(w *world.World, clients []func(p *world.Proc) string, events []string) SchedResult {
+	return runScheduled(w, clients, nil, events, nil, true)
+}
+
+func runScheduled(w *world.World, clients []func(p *world.Proc) string, lazy []bool, events []string,
+	wrap func(sc *sched.Sched, id int, r world.Repos) world.Repos, shared bool) SchedResult {
 	sc := sched.New()
 	procs := make([]*world.Proc, len(clients))
 	results := make([]string, len(clients))
 	for i := range clients {
 		id, hook := sc.AddProc()
+		if shared && i > 0 {
+			q := *procs[0]
+			q.Ctx = sched.WithID(context.Background(), id)
+			procs[i] = &q
+			continue
+		}
 		po := world.ProcOpts{Hooks: []redis.Hook{hook}}
 		if wrap != nil {
 			po.Wrap = func(r world.Repos) world.Repos { return wrap(sc, id, r) }
 		}
 		procs[i] = w.NewProcOpts(po)
+		if shared {
+			procs[i].Ctx = sched.WithID(context.Background(), id)
+		}
 	}
 	started := make([]bool, len(clients))
 	start := func(i int) {
